@@ -604,6 +604,9 @@ var c03Raw *red.Client
 // NOSCRIPT at once and trip the client's breaker (finding 3) - concurrent ops are not run in that state
 var c03Flushed atomic.Bool
 
+// Redis.Ping() said false although the server answered PONG (seen once in this process): monitors are not waited for any more
+var c03PingBroken atomic.Bool
+
 func c03SkipConcurrent() bool { return c03Mode.Load() >= 3 || c03Flushed.Load() }
 
 func c03ScriptFlush() string {
@@ -915,7 +918,20 @@ func c03Token(mr *miniredis.Miniredis, store *redis.Redis, cfg verifh.Cfg) (func
 	}
 	// every instance back on the store path and its monitor goroutine gone: "ok";
 	// an instance in rescue mode without monitor: "STUCK i" (final, not a matter of waiting); else "" after max
+	pingBroken := func() bool {
+		if c03PingBroken.Load() {
+			return true
+		}
+		if v, err := c03Raw.Ping(context.Background()).Result(); err == nil && v == "PONG" && !store.Ping() {
+			c03PingBroken.Store(true)
+			return true
+		}
+		return false
+	}
 	settle := func(max time.Duration) string {
+		if c03PingBroken.Load() {
+			return "" // no monitor can ever succeed: nothing to wait for
+		}
 		deadline := time.Now().Add(max)
 		for {
 			all := true
@@ -942,7 +958,7 @@ func c03Token(mr *miniredis.Miniredis, store *redis.Redis, cfg verifh.Cfg) (func
 	recoverAll := func() string {
 		// the monitors can only come back if Redis.Ping() recognises the server's PONG: check that first instead of
 		// waiting for goroutines that can never succeed
-		if v, err := c03Raw.Ping(context.Background()).Result(); err == nil && v == "PONG" && !store.Ping() {
+		if pingBroken() {
 			return "PINGBROKEN raw=PONG ping=0"
 		}
 		t0 := time.Now()
@@ -1022,8 +1038,11 @@ func c03Token(mr *miniredis.Miniredis, store *redis.Redis, cfg verifh.Cfg) (func
 				l.startMonitor()
 				return recoverAll()
 			}
-			l.rescueLock.Lock()
 			c03Mode.Store(0)
+			if pingBroken() {
+				return "PINGBROKEN raw=PONG ping=0"
+			}
+			l.rescueLock.Lock()
 			deadline := time.Now().Add(20 * time.Second)
 			for atomic.LoadUint32(&l.redisAlive) == 0 {
 				if time.Now().After(deadline) {
